@@ -7,6 +7,7 @@ import EqlModel.Eval
 import EqlModel.SpecExec
 import EqlModel.Cache
 import EqlModel.Lemmas.CacheDefs
+import EqlModel.Mode
 
 open Eql Eql.Sexp
 
@@ -115,10 +116,40 @@ def runCache (args : List Sexp) : Option String := do
     outs := outs ++ [(if uniform then "U" else "N") ++ "/" ++ ";".intercalate per]
   return s!"{id}\t{"|".intercalate outs}"
 
+-- ---------------------------------------------------------------- mode histories (C08)
+
+def decModeOp (s : Sexp) : Option Mode.Op := do
+  let (h, args) ← s.headed?
+  match h, args with
+  | "es", [m, wq] =>
+      let m ← m.atom?
+      return .enterSym (if m == "r" then .rule else .query) ((← wq.nat?) != 0)
+  | "ew", [] => return .enterWith
+  | "lv", [] => return .leave
+  | "ic", [i] => return .iterCreate (← i.nat?)
+  | "ia", [i, e] => return .iterAdvance (← i.nat?) ((← e.nat?) != 0)
+  | "cl", [i] => return .iterClose (← i.nat?)
+  | _, _ => none
+
+def showObs (o : Mode.Obs) : String :=
+  s!"{showBool o.inSymbolic}{showBool o.inRule}{showBool o.constructsConcrete}{showBool o.operatorsRejected}{o.stackLen}"
+
+/-- `(mode id (ops ..))`: the observation after every step. -/
+def runMode (args : List Sexp) : Option String := do
+  let id ← (← args.head?).atom?
+  let ops ← (← field? "ops" args).mapM decModeOp
+  let mut s : Mode.MState := {}
+  let mut outs : List String := []
+  for op in ops do
+    s := Mode.step s op
+    outs := outs ++ [showObs (Mode.observe s)]
+  return s!"{id}\t{"|".intercalate outs}"
+
 def process (line : String) : String :=
   match Sexp.parse line with
   | some [.list (.atom "q" :: args)] => (runQuery args).getD "ERR decode"
   | some [.list (.atom "cache" :: args)] => (runCache args).getD "ERR decode"
+  | some [.list (.atom "mode" :: args)] => (runMode args).getD "ERR decode"
   | some _ => "ERR unknown-command"
   | none => "ERR parse"
 
